@@ -19,7 +19,7 @@ def _small_enum(rnd, name, bits):
 
 def _enum(rnd, name, shape):
     repr_, bits, signed = rnd.choice(REPRS)
-    if shape in ("catch_all", "default") and repr_ == "u64":
+    if shape in ("catch_all", "default", "catch_all_alt", "default_alt") and repr_ == "u64":
         repr_, bits, signed = "u16", 16, False
     nvar = rnd.randint(1, 8)
     lo = -(1 << (bits - 1)) if signed else 0
@@ -51,7 +51,7 @@ def _enum(rnd, name, shape):
             break
         used.add(val)
         cur = val
-        want_alt = (shape == "alternatives" and rnd.random() < 0.5) or (shape == "implicit_after_alt" and i == 0)
+        want_alt = (shape == "alternatives" and rnd.random() < 0.5) or (shape == "implicit_after_alt" and i == 0) or (shape in ("catch_all_alt", "default_alt") and (i == 1 or rnd.random() < 0.4))
         if want_alt:
             for _ in range(rnd.randint(1, 3)):
                 a = rnd.randint(max(lo, 0), min(hi, 4000))
@@ -60,15 +60,15 @@ def _enum(rnd, name, shape):
                     used.add(a)
             if alts:
                 attrs.append("    #[wire(alternatives = [%s])]" % ", ".join(str(a) for a in alts))
-        if shape == "default" and i == 0:
+        if shape in ("default", "default_alt") and i == 0:
             attrs.append("    #[default]")
         body += attrs
         body.append("    V%d%s," % (i, "" if text is None else " = %s" % text))
-    if shape == "catch_all":
+    if shape in ("catch_all", "catch_all_alt"):
         body.append("    #[wire(catch_all)]")
         body.append("    Unknown(%s)," % repr_)
     ders = ["Debug", "Copy", "Clone", "PartialEq", "Eq"]
-    if shape == "default":
+    if shape in ("default", "default_alt"):
         ders.append("Default")
     lines.append("#[derive(%s, ethercrab_wire::%s)]" % (", ".join(ders), derive))
     lines.append("#[repr(%s)]" % repr_)
@@ -185,8 +185,10 @@ def generate(seed, n):
             out.append(_small_enum(rnd, nm, bits))
             small.append((nm, bits))
             k += 1
-    shapes = ["explicit", "explicit", "alternatives", "catch_all", "default", "implicit_all", "implicit_mixed", "implicit_after_alt"]
-    ne = max(8, n // 4)
+    # catch_all_alt / default_alt: a fall-through variant *and* variants with alternative values - the write side must
+    # still pack each variant's own discriminant, not one of its alternatives
+    shapes = ["explicit", "catch_all_alt", "alternatives", "catch_all", "default", "implicit_all", "implicit_mixed", "implicit_after_alt", "default_alt", "explicit"]
+    ne = max(10, n // 4)
     for i in range(ne):
         out.append(_enum(rnd, "En%d" % i, shapes[i % len(shapes)]))
         k += 1
